@@ -193,7 +193,7 @@ def run(prog: Program, chk: Check):
             # `ns = getattr(self, namespace)` may name the table first
             tabs = {n.targets[0].id: norm(n.value) for n in l1.body if isinstance(n, ast.Assign) and len(n.targets) == 1 and isinstance(n.targets[0], ast.Name)}
             other = [n for n in l1.body if not (isinstance(n, ast.For) or (isinstance(n, ast.Assign) and len(n.targets) == 1 and isinstance(n.targets[0], ast.Name)
-                                                                        and norm(n.value) == f"getattr(self, {l1.target.id})"))]
+                                                                        and (norm(n.value) == f"getattr(self, {l1.target.id})" or isinstance(n.value, ast.Constant))))]
             def iter_text(n, tabs=tabs):
                 t = norm(n.iter)
                 for k_, v_ in tabs.items():
